@@ -106,11 +106,14 @@ def run_small(scn, tid, rng, root, BarcodeParser):
     else:
         lz = None if not lazy else ((alias,) if tid % 2 else '*')
         parser = BarcodeParser(d, hammingDistanceExpansion=k, lazyLoad=lz)
+    touch = scn.get('touch', 'lookup')
+    if lazy and touch == 'getitem':
+        parser[alias]          # __getitem__: the other public access that loads a pending alias (before any lookup)
     qs = all_strings(L)
     rng.shuffle(qs)
     ans = [observe(parser, q, alias) for q in qs]
     shutil.rmtree(d, True)
-    return {'ev': 'small', 'tid': tid, 'L': L, 'k': k, 'lazy': lazy, 'via': via, 'nfiles': len(files), 'fmt': fmts,
+    return {'ev': 'small', 'tid': tid, 'L': L, 'k': k, 'lazy': lazy, 'touch': touch, 'via': via, 'nfiles': len(files), 'fmt': fmts,
             'wl': wl, 'ans': ans}
 
 
@@ -211,6 +214,8 @@ def replay(out, ev, BarcodeParser, md):
                     with open(os.path.join(d, alias + ('.bc', '.tsv')[fno]), 'w') as h:
                         h.write('\n'.join(lines) + '\n')
                 parser = BarcodeParser(d, hammingDistanceExpansion=ev['k'], lazyLoad=(alias,) if ev['lazy'] else None)
+                if ev['lazy'] and ev.get('touch') == 'getitem':
+                    parser[alias]
             e2 = dict(ev)
             e2['ans'] = [observe(parser, dec(a['q']), alias) for a in ev['ans']]
             f.write(json.dumps(e2) + '\n')
@@ -220,6 +225,8 @@ def replay(out, ev, BarcodeParser, md):
                     if os.path.splitext(p)[0].replace('.gz', '').replace('.bc', '') == ev['alias']][0]
             ent = read_whitelist(os.path.join(folder, path))
             parser = BarcodeParser(folder, hammingDistanceExpansion=ev['k'], lazyLoad='*')
+            if ev.get('touch') == 'getitem':
+                parser[ev['alias']]
             f.write(json.dumps({'ev': 'wl', 'tid': 0, 'alias': ev['alias'], 'dir': ev['dir'], 'k': ev['k'],
                                 'entries': [[enc(b), i] for b, i in ent]}) + '\n')
             o = observe(parser, ''.join(LET[c] if c in LET else chr(c) for c in ev['q']), ev['alias'])
@@ -274,12 +281,15 @@ def main():
                     continue
                 for k in (0, 1, 2):
                     parser = BarcodeParser(folder, hammingDistanceExpansion=k, lazyLoad='*')
+                    touch = 'getitem' if k == 1 else 'lookup'      # first access to the lazy alias
+                    if touch == 'getitem':
+                        parser[alias]
                     tid += 1
                     emit({'ev': 'wl', 'tid': tid, 'alias': alias, 'dir': sub, 'k': k, 'entries': [[enc(b), i] for b, i in ent]})
                     for q in gen_queries(rng, ent, nq):
                         tid += 1
                         o = observe(parser, q, alias)
-                        o.update(ev='q', tid=tid, alias=alias, dir=sub, k=k)
+                        o.update(ev='q', tid=tid, alias=alias, dir=sub, k=k, touch=touch)
                         emit(o)
     shutil.rmtree(root, True)
 
